@@ -41,6 +41,10 @@ func main() {
 		childDet()
 		return
 	}
+	if os.Getenv("VERIF_CHILD") == "digest" {
+		childDigest()
+		return
+	}
 	vh.Main("msg", run)
 }
 
@@ -136,6 +140,8 @@ func run(c *C) {
 		runUtf8(c)
 	case "C30":
 		runEqual(c)
+	case "C08":
+		runPaths(c)
 	case "C17":
 		runLazy(c)
 	case "C09":
